@@ -22,19 +22,18 @@ theorem ensure_modifiable_tie (s : St) (hd : DataOk s.hp) :
       | some r' => rt_step [ht, from_str_step, hf, replace_inner_step, releaseRepr, resOf]
   | heap a l =>
     cases hg : hp.get? a with
-    | none => rt_step [hg, resOf, hr_is_unique_none rf st hp a l _ hg]
+    | none => rt_heap_none rf st hp a l hg [resOf]
     | some b =>
       by_cases h1 : b.rc = 1
-      · rt_step [hg, h1, resOf, hr_is_unique_some rf st hp a l _ hg]
+      · rt_heap_some rf st hp a l hg [h1, resOf]
       · by_cases h3 : l ≤ b.cap
         · rcases hw : heapNew rf hp (b.data.take l) with ⟨o, hp1⟩
           cases o with
-          | none => rt_step [hg, h1, h3, hw, moveTo, resOf, hr_is_unique_some rf st hp a l _ hg, hr_as_str_some rf st hp a l _ hg]
+          | none => rt_heap_some rf st hp a l hg [h1, h3, hw, moveTo, resOf]
           | some a' =>
             cases hrl : releaseRepr hp1 (.heap a l) <;>
-              rt_step [hg, h1, h3, hw, moveTo, take_len_block hd hg h3, replace_inner_step, hrl, resOf,
-                hr_is_unique_some rf st hp a l _ hg, hr_as_str_some rf st hp a l _ hg]
-        · rt_step [hg, h1, h3, resOf, hr_is_unique_some rf st hp a l _ hg, hr_as_str_some rf st hp a l _ hg]
+              rt_heap_some rf st hp a l hg [h1, h3, hw, moveTo, take_len_block hd hg h3, replace_inner_step, hrl, resOf]
+        · rt_heap_some rf st hp a l hg [h1, h3, resOf]
 
 /-- the same tie in the form a caller rewrites with -/
 theorem ensure_modifiable_norm {ρ' : Type} (s : St) (hd : DataOk s.hp) :
@@ -53,19 +52,18 @@ theorem ensure_modifiable_norm {ρ' : Type} (s : St) (hd : DataOk s.hp) :
       | some r' => rt_step [ht, from_str_step, hf, replace_inner_step, releaseRepr, norm, stepOfRes]
   | heap a l =>
     cases hg : hp.get? a with
-    | none => rt_step [hg, norm, stepOfRes, hr_is_unique_none rf st hp a l _ hg]
+    | none => rt_heap_none rf st hp a l hg [norm, stepOfRes]
     | some b =>
       by_cases h1 : b.rc = 1
-      · rt_step [hg, h1, norm, stepOfRes, hr_is_unique_some rf st hp a l _ hg]
+      · rt_heap_some rf st hp a l hg [h1, norm, stepOfRes]
       · by_cases h3 : l ≤ b.cap
         · rcases hw : heapNew rf hp (b.data.take l) with ⟨o, hp1⟩
           cases o with
-          | none => rt_step [hg, h1, h3, hw, moveTo, norm, stepOfRes, hr_is_unique_some rf st hp a l _ hg, hr_as_str_some rf st hp a l _ hg]
+          | none => rt_heap_some rf st hp a l hg [h1, h3, hw, moveTo, norm, stepOfRes]
           | some a' =>
             cases hrl : releaseRepr hp1 (.heap a l) <;>
-              rt_step [hg, h1, h3, hw, moveTo, take_len_block hd hg h3, replace_inner_step, hrl, norm, stepOfRes,
-                hr_is_unique_some rf st hp a l _ hg, hr_as_str_some rf st hp a l _ hg]
-        · rt_step [hg, h1, h3, norm, stepOfRes, hr_is_unique_some rf st hp a l _ hg, hr_as_str_some rf st hp a l _ hg]
+              rt_heap_some rf st hp a l hg [h1, h3, hw, moveTo, take_len_block hd hg h3, replace_inner_step, hrl, norm, stepOfRes]
+        · rt_heap_some rf st hp a l hg [h1, h3, norm, stepOfRes]
 
 
 end LS.GenTie
